@@ -65,13 +65,20 @@ func evKey(kind string, i int, tx3idx int) string {
 	return ""
 }
 
-// fetch returns the lines by which client c reads record i.
+// fetch returns the lines by which client c reads record i.  A writing client starts from a fresh local record
+// (so that a failed read leaves it with version 0, not with the version of ANOTHER record: atomix versions of
+// different keys may coincide — they are positions of different partition logs — and the twin cannot know
+// when); the observer keeps its record and only changes the identity.
 func fetch(kind, c string, i int) []string {
 	op := "store.get "
 	if kind == "tx3" {
 		op = "store.getalt "
 	}
-	return []string{"store.set " + c + " " + identity(kind, i), op + c}
+	edit := "store.new "
+	if c == "o" {
+		edit = "store.set "
+	}
+	return []string{edit + c + " " + identity(kind, i), op + c}
 }
 
 var paths = []string{"/a", "/b", "/c"}
@@ -166,6 +173,7 @@ func genOps(r *rng.R, tier string) fw.Case {
 			nontrivial = true
 		case k < 93: // malformed / fabricated
 			m := r.Pick([]string{"ver0", "rev0", "verfar", "id=-", "tgt=-", "txi=0", "key=-", "ty=-", "tv=-", "key=" + hx("nokey")})
+			clearVals(c)
 			s = append(s, "store.set "+c+" "+m)
 			s = append(s, r.Pick([]string{"store.update ", "store.updatestatus ", "store.create "})+c)
 			tags = append(tags, "malformed:"+strings.SplitN(m, "=", 2)[0])
